@@ -8,6 +8,31 @@ NOTE_COMMON = ("trusted: Lean 4.33 kernel (axioms propext/Classical.choice/Quot.
                "generated + corpus operations on every run; the Go toolchain; the harness. ")
 
 P = {
+ "C01": dict(
+  text="85 Lean theorems about the executable models of every arithmetic, ordering and bit method of num.Uint128 and num.Int128 "
+       "(hi/lo words as BitVec 64, math/bits by its contracts, the six division entry points and three kernels transcribed "
+       "separately, dispatch threshold from the regenerated Facts): add/sub/inc/dec/mul and their 64-bit forms = the operation "
+       "mod 2^128, all comparison predicates = the order on toNat/toInt, and/or/xor/not/andNot on BitVec 128, shifts for every "
+       "count, bit queries incl. onesCount_spec, division by zero panics and nothing else does, division correct on the fast "
+       "paths and on the whole binary path unconditionally, signed layer (neg/abs/Min fixed points, tdiv/tmod). ~200k lines "
+       "per quick run; a second pass histograms dispatch path x correction counts and fails if a path stops being reached.",
+  note="2 of 87 obligations are NOT discharged: the contracts of the two Knuth kernels (Divlu64Spec for divmod128by64, Div128Spec "
+       "for the n.hi != 0 branch of divmod128by128) are named hypotheses of divMod_spec_partial / idivMod_spec_partial (full "
+       "statement kept as divMod_spec_Statement); on those paths the evidence is the correspondence run with every path and "
+       "correction count hit on each run. Int128.Div64 has no toInt theorem. math/bits contracts trusted.",
+  ref="DESIGN.md section 5 C01"),
+ "C11": dict(
+  text="22 Lean theorems about the heap model of errs.Error (nodes with message/cause/next, Append transcribed with its cursor, "
+       "node-by-node copy and write log; Wrap/WrapTyped/Unwrap/NewWithCause/ErrorOrNil): append_items, append_nil_iff, "
+       "append_written / append_frame / append_args_unchanged (no appended argument is mutated), append_chain, count_eq, "
+       "wrapped_errors_eq, wrap_nil, wrap_idempotent, wrap_reaches_cause, reachable_wf, append_items_alias (content law under "
+       "any aliasing). Histories over named variables print every variable after every call, so mutation of arguments and "
+       "pointer identity are compared.",
+  note="stack text, fmt verbs, errors.Is/As and slog output have no model: implementation-side oracle only; heaps built with "
+       "CloneWithPrefixMessage are outside the WF invariant (correspondence only); each Append argument is read as the value it "
+       "has when consumed (Append(a,b,a) has four items - reading, Appendix B); the accumulator adopted when err is nil is the "
+       "first non-nil *Error argument.",
+  ref="DESIGN.md section 5 C11"),
  "C02": dict(
   text="28 Lean theorems about executable models of the Uint128/Int128 conversion surface and of IEEE binary64 (GoSem/F64.lean, "
        "floats as data, rounding by exact integer arithmetic): String/parse and unmarshal round trips, FromBigInt exact-or-"
@@ -167,15 +192,15 @@ P = {
        "dyadic inputs.",
   ref="DESIGN.md section 5 C07"),
  "C08": dict(
-  text="33 Lean theorems about the executable model of xmath.BitSet (words as BitVec 64, every loop transcribed): per-operation "
+  text="34 Lean theorems about the executable model of xmath.BitSet (words as BitVec 64, every loop transcribed): per-operation "
        "effect on membership for Set/Clear/Flip and the three range forms (reversed, in-word, multi-word, beyond capacity), "
-       "run_refines (any history on two bit sets = mathematical set), the six searches return the extreme matching index or the "
-       "sentinel, Trim/Data/EnsureCapacity/Clone/Copy/Reset/Load laws, Load(Data()) identity, Equal iff same members. "
-       "~360k operations per quick run incl. full observations.",
-  note="the SWAR popcount identity countSetBits = popcount is NOT proved: it is the explicit named hypothesis BS.SwarPopcount of "
-       "three _partial theorems (range/whole-history count accounting); supported by a kernel decide over all byte patterns "
-       "in all lanes and by a dedicated popcnt stream comparing Go's countSetBits (via -overlay accessor) with the model; "
-       "negative indexes terminate the process by design (domain index >= 0).",
+       "run_refines (any history on two bit sets = mathematical set), count_card (Count = cardinality after every history), "
+       "countSetBits_eq_popcount (the repo's SWAR routine is the population count, kernel-only byte-lane proof), the six "
+       "searches return the extreme matching index or the sentinel, Trim/Data/EnsureCapacity/Clone/Copy/Reset/Load laws, "
+       "Load(Data()) identity, Equal iff same members. ~360k operations per quick run incl. full observations.",
+  note="negative indexes terminate the process by design (domain index >= 0); capacity growth policy is not observable through "
+       "the API and deliberately not compared; Go's countSetBits is additionally compared with the model through a -overlay "
+       "accessor (popcnt stream).",
   ref="DESIGN.md section 5 C08"),
  "C17": dict(
   text="14 Lean theorems about the executable model of notifier.Notifier (three maps, batch level, enabled flag, a world of "
